@@ -9,7 +9,7 @@
    the extracted model (stream spec) and is therefore bounded in the number of repetitions. *)
 
 From Coq Require Import Strings.String.
-From SwiftMT Require Import Base.Bytes Engine.Layout Engine.Tokens Engine.Facts Engine.Replay Engine.Instance Engine.Extract Engine.Factor Engine.FactorInstance Engine.Regex Engine.Abs Engine.AbsSound Engine.Total Engine.AbsInstance Engine.AbsResult gen.Specs.
+From SwiftMT Require Import Base.Bytes Engine.Layout Engine.Tokens Engine.Facts Engine.Replay Engine.Instance Engine.Extract Engine.Factor Engine.FactorInstance Engine.Regex Engine.Abs Engine.AbsSound Engine.Total Engine.AbsInstance Engine.AbsResult gen.Specs Engine.AbsBytes.
 
 (* one accepted message of a structure => every message with the same tags whose contents the
    same field parsers accept is accepted, with the same field types, letters and tags in order *)
@@ -116,6 +116,15 @@ Theorem C03_mt204_rejects_every_word_of_its_specification : forall L alts,
   forall f, lsize L + List.length toks + 1 <= f -> exists e, trun fparse f L toks = Reject e.
 Proof. exact mt204_rejects_its_specification. Qed.
 
+(* the inclusion for the byte-level cursor on canonical texts (Props/C01.v) *)
+Theorem C03_specification_is_accepted_bytes : forall T L alts,
+  lookup T all_layouts = Some L -> lookup T specs = Some alts -> mem T inclusion_open = false ->
+  forall crlf fparse w toks, aws w = true -> forallb tok_ok toks = true ->
+  spec_lang alts (map fst toks) -> Forall (good_token fparse L) toks ->
+  forall f, lsize L + List.length toks + 1 <= f ->
+  exists its, brun fparse f L (w ++ render crlf toks) = Accept its /\ map tok_of its = toks.
+Proof. exact spec_inclusion_bytes. Qed.
+
 Print Assumptions C03_structure_decides_partial.
 Print Assumptions C03_accepted_is_reproduced.
 Print Assumptions C03_accepted_is_reproduced_bytes.
@@ -125,3 +134,4 @@ Print Assumptions C03_specification_membership.
 Print Assumptions C03_inclusion_refuted_for_open_types.
 Print Assumptions C03_restricted_specification_is_accepted.
 Print Assumptions C03_mt204_rejects_every_word_of_its_specification.
+Print Assumptions C03_specification_is_accepted_bytes.
